@@ -1138,6 +1138,22 @@ class Runner:
                             rs0 = None if own is None else rng_key(m.random_state.get_state())
                     except Exception as ex:
                         canon = ('err', err_name(ex))
+                elif ev[0] == 'roundtrip':
+                    # self := <entry-point class>.from_dict(self.to_dict())   (Univariate / Multivariate / Bivariate)
+                    from copulas.univariate import Univariate
+                    from copulas.multivariate.base import Multivariate
+                    from copulas.bivariate import Bivariate
+                    entry = {'scipy': Univariate, 'wrapper': Univariate, 'gm': Multivariate, 'biv': Bivariate}[kind]
+                    try:
+                        with warnings.catch_warnings():
+                            warnings.simplefilter('ignore')
+                            new = entry.from_dict(m.to_dict())
+                            canon = ('dict', jsonable(new.to_dict()))
+                        m = new
+                        own = 0 if getattr(m, 'random_state', None) is not None else None
+                        rs0 = None if own is None else rng_key(m.random_state.get_state())
+                    except Exception as ex:
+                        canon = ('err', err_name(ex))
                 else:
                     raise ValueError(ev)
                 g1 = rng_key(np.random.get_state())
